@@ -4,6 +4,10 @@ import PyYetiVerif.Model.FixtimeDrops
 import PyYetiVerif.Model.Psd
 import PyYetiVerif.Model.PsdOct
 import PyYetiVerif.Model.Resample
+import PyYetiVerif.Model.FixtimeFull
+import PyYetiVerif.Model.FixtimeDespike
+import PyYetiVerif.Model.PsdMod
+import PyYetiVerif.Model.ResampleDtype
 /-! Line protocol for C19.  Sections of a request are separated by `|`.
 Rationals travel as `n` or `n/d` (exact); floats as decimal `UInt64` bit patterns.
 
@@ -20,7 +24,20 @@ exact (`Rat`)
 `rcq ext | FLin | FUin | P | FL | FU` → `rescaleCore`:  `psd…|ms…|msv`
 `rfq ext | P | F | freq`            → `rescaleFreq` (linear scales only, else `nonlinear`):
                                        `lo hi|psd…|ms…|msv` or `value-error`
+`srq difft…`                        → `_sr_calcs`: `maxSr|minSr|aveSr|modeSr|modePct|dsr|byMode|defsr` (`inf`) or `raises`
+`bsh t0 base sr`                    → the `base` shift `t1`
+`dlo n nz | flags…`                 → `_del_loners`
+`sgf n xp | x…`                     → `exclusive_sgfilter` (xp: f m l n k<int>) or `raises`
+`dsp n sigma maxiter ts tv xp | x…` → `despike`: `pv…|niter` or `raises` (tv: `none` or a rational)
+`dsd n sigma maxiter ts tv xp | x…` → `despike_diff`
+`smp n sigma maxiter | d…`          → fixtime's `_simple_filter`
+`fxk deldrops delout spikeN | dropval | told… | data…` → positions kept after `_del_drops`/`_del_outtimes` or `early`
+`fxt deldrops delout hold | dropval sr tol base spikeN | told… | data… | sortvec… | spike flags…`
+                                    → `fixtimeFull`: `early|tnew…|src…|dropouts|outtimes|spikes|alldrops|keep|sr|stats|tp|warnS warnL|shift`
+                                      or `raises`
+`rdt int|float32|float64`           → `resample`'s storage types: `mean buffer out`
 numeric (`Float`)
+`pmx row… ; row… ; …`               → `psdmod`'s last step: the row maxima (rows separated by `;`) or `raises`
 `area f p f p …`                    → `psd.area`
 `ilog x… | f p f p …` / `ilin …`    → `psd.interp(linear=False|True)`
 `edges c…`                          → `_get_fl_fu`: `FL…|FU…|lin` (`lin` = 1 when the linear branch was taken)
@@ -75,6 +92,26 @@ def fmtResQ (r : Psd.Rescaled Rat) : String :=
 def fmtResF (r : Psd.Rescaled Float) : String :=
   s!"{fmtFs r.psd}|{fmtFs r.ms}|{fmtF r.msv}"
 
+def parseSample (s : String) : Option Fixtime.Sample :=
+  if s == "nan" then some .nan else if s == "inf" then some .inf else (parseRat s).map .fin
+def parseOptRat (s : String) : Option (Option Rat) :=
+  if s == "none" || s == "auto" then some none else (parseRat s).map some
+def parseOptNat (s : String) : Option (Option Nat) :=
+  if s == "none" then some none else s.toNat?.map some
+def parseXP (s : String) : Option Despike.XP :=
+  match s with
+  | "f" => some .first | "m" => some .middle | "l" => some .last | "n" => some .none
+  | _ => if s.startsWith "k" then (s.drop 1).toString.toNat?.map .idx else none
+def fmtBools (l : List Bool) : String := " ".intercalate (l.map fun b => if b then "1" else "0")
+def fmtStats (st : Fixtime.SrStats) : String :=
+  let mx := match st.maxSr with | some v => fmtRat v | none => "inf"
+  s!"{mx} {fmtRat st.minSr} {fmtRat st.aveSr} {fmtRat st.modeSr} {fmtRat st.modePct} {fmtRat st.dsr} {if st.byMode then 1 else 0} {fmtRat st.defsr}"
+def fmtOptNats (l : Option (List Nat)) : String := match l with | some v => fmtNats v | none => "none"
+def fmtDespike (r : Option Despike.Result) : String :=
+  match r with
+  | some r => s!"{fmtBools r.pv}|{r.niter}"
+  | none => "raises"
+
 def answer (line : String) : String :=
   let secs := (line.splitOn "|").map words
   let r : Option String :=
@@ -115,6 +152,68 @@ def answer (line : String) : String :=
         let sr ← parseRat sr; let told ← parseRats told
         match Fixtime.mkInitialTnew told sr with
         | some r => pure s!"{fmtRats r.tnew}|{fmtNats r.tp}|{if r.align then 1 else 0}|{fmtRat r.delt}|{if r.mismatch then 1 else 0}"
+        | none => pure "raises"
+    | [("srq" :: d)] => do
+        let d ← parseRats d
+        match Fixtime.srCalcs d with
+        | some st => pure (fmtStats st)
+        | none => pure "raises"
+    | [["bsh", t0, b, sr]] => do
+        let t0 ← parseRat t0; let b ← parseRat b; let sr ← parseRat sr
+        pure (fmtRat (Fixtime.baseShift t0 b sr))
+    | [["dlo", n, nz], flags] => do
+        let n ← n.toNat?; let nz ← nz.toNat?; let flags ← flags.mapM parseBool
+        pure (fmtBools (Fixtime.delLoners flags n nz))
+    | [["sgf", n, xp], x] => do
+        let n ← n.toNat?; let xp ← parseXP xp; let x ← parseRats x
+        match Despike.sgFilter x n xp with
+        | some d => pure (fmtRats d)
+        | none => pure "raises"
+    | [["dsp", n, sg, mi, ts, tv, xp], x] => do
+        let n ← n.toNat?; let sg ← parseRat sg; let mi ← mi.toInt?; let ts ← parseRat ts
+        let tv ← parseOptRat tv; let xp ← parseXP xp; let x ← parseRats x
+        pure (fmtDespike (Despike.despike x n sg mi ts tv xp))
+    | [["dsd", n, sg, mi, ts, tv, xp], x] => do
+        let n ← n.toNat?; let sg ← parseRat sg; let mi ← mi.toInt?; let ts ← parseRat ts
+        let tv ← parseOptRat tv; let xp ← parseXP xp; let x ← parseRats x
+        pure (fmtDespike (Despike.despikeDiff x n sg mi ts tv xp))
+    | [["smp", n, sg, mi], x] => do
+        let n ← n.toNat?; let sg ← parseRat sg; let mi ← mi.toInt?; let x ← parseRats x
+        pure (fmtDespike (Despike.simpleFilter x n sg mi))
+    | [["fxk", dd, dout, spn], [dv], told, data] => do
+        let dd ← parseBool dd; let dout ← parseBool dout; let spn ← parseOptNat spn
+        let dv ← parseOptRat dv; let told ← parseRats told; let data ← data.mapM parseSample
+        let drop0 := Fixtime.findDrops data dv
+        let drop := match spn with
+          | some w => if drop0.any id then Fixtime.delLoners drop0 w else drop0
+          | none => drop0
+        let keep0 := if dd then Fixtime.nonzeroIdx (drop.map not) else List.range told.length
+        if dd && keep0.isEmpty then pure "early" else
+        pure (fmtNats (Fixtime.delOuttimes told keep0 dout).1)
+    | [["fxt", dd, dout, hold], [dv, sr, tol, base, spn], told, data, sv, spk] => do
+        let dd ← parseBool dd; let dout ← parseBool dout; let hold ← parseBool hold
+        let dv ← parseOptRat dv; let sr ← parseOptRat sr; let tol ← parseRat tol
+        let base ← parseOptRat base; let spn ← parseOptNat spn
+        let told ← parseRats told; let data ← data.mapM parseSample
+        let sv ← sv.mapM (·.toNat?); let spk ← spk.mapM parseBool
+        let o : Fixtime.FixOpts := ⟨dd, dv, dout, spn, sr, hold, tol, base⟩
+        match Fixtime.fixtimeFull told data (if sv.isEmpty then none else some sv) o (fun _ => spk) with
+        | none => pure "raises"
+        | some r =>
+          let st := match r.stats with | some st => fmtStats st | none => "none"
+          pure s!"{if r.early then 1 else 0}|{fmtRats r.tnew}|{fmtNats r.src}|{fmtOptNats r.dropouts}|{fmtNats r.outtimes}|{fmtOptNats r.spikes}|{fmtNats r.alldrops}|{fmtNats r.keep}|{fmtRat r.sr}|{st}|{fmtNats r.tp}|{if r.warnSmall then 1 else 0} {if r.warnLarge then 1 else 0}|{fmtRat r.shift}"
+    | [["rdt", d]] => do
+        let d ← match d with
+          | "int" => some Resample.DType.int | "float32" => some Resample.DType.float32
+          | "float64" => some Resample.DType.float64 | _ => none
+        let nm := fun (t : Resample.DType) => match t with
+          | .int => "int" | .float32 => "float32" | .float64 => "float64"
+        pure s!"{nm (Resample.meanType d)} {nm (Resample.bufferType d)} {nm (Resample.outType d)}"
+    | [("pmx" :: rest)] => do
+        let rows := (" ".intercalate rest).splitOn ";"
+        let rows ← rows.mapM fun r => parseFs (words r)
+        match PsdMod.psdmodOf rows with
+        | some p => pure (fmtFs p)
         | none => pure "raises"
     | [["rlen", ln, p, q]] => do
         let ln ← ln.toNat?; let p ← p.toNat?; let q ← q.toNat?
